@@ -659,7 +659,7 @@ theorem createSpeculative_linked : ∀ (n : Nat) (sc : CellId) (s : St) (b : Cel
       rw [createSpeculative_step n sc p key sp s hv hp] at hfr ⊢
       have hplt : p < s.heap.cells.size := Heap.lt_of_get_ne_unknown _ _ (by rw [hp]; simp)
       have hpc : (s.heap.alloc (.nil (some sp))).2.get s.heap.cells.size = s.heap.get p := by
-        rw [Heap.get_alloc_new, hp]
+        rw [Heap.get_alloc_new_readOnly, hp]
       have hal := HeapPreserved.alloc s.heap (.nil (some sp))
       have chain1 : ChainW (s.heap.alloc (.nil (some sp))).2 b
           ((s.heap.alloc (.nil (some sp))).2.get s.heap.cells.size) cs' := by
@@ -711,7 +711,7 @@ theorem createSpeculative_linked : ∀ (n : Nat) (sc : CellId) (s : St) (b : Cel
             have h2p : s2.heap.get p = .nil (some sp) := by
               rw [hold p hplt hpcs (fun e => hpb e.1), hp]
             have h2np : s2.heap.get np = .nil (some sp) := by
-              rw [L.val]; exact Heap.get_alloc_new _ _
+              rw [L.val]; exact Heap.get_alloc_new_readOnly _ _
             -- the linked heap
             have hsz3 : (linkParent s2.heap key np p).cells.size = s2.heap.cells.size := linkParent_size _ _ _ _
             have hsc3 : sc < (linkParent s2.heap key np p).cells.size := by
@@ -779,7 +779,7 @@ theorem createSpeculative_linked : ∀ (n : Nat) (sc : CellId) (s : St) (b : Cel
                 rw [hp] at hzv
                 simp only [Val.nil.injEq, Option.some.injEq] at hzv
                 subst hzv
-                have hself := L.self pz kz (by rw [Heap.get_alloc_new]; rfl)
+                have hself := L.self pz kz (by rw [Heap.get_alloc_new_readOnly]; rfl)
                 refine ⟨np, hnpge, Nat.lt_of_lt_of_le hnp2 (by rw [← hsz3]; exact F.cells),
                   carry _ _ _ hself, by rw [hnp3, hp3], by rw [hp3]; exact c1⟩
               · have hzlt : z < s.heap.cells.size := Heap.lt_of_get_ne_unknown _ _ (by rw [hzv]; simp)
@@ -1225,7 +1225,7 @@ theorem PathOK.alloc {s : St} (ok : PathOK s) (v : Val) (hv : v.isCont = false) 
       exact contOK_mono (o1 c hlt) hal.arrs hal.objs
     · have : c = s.heap.cells.size := Nat.le_antisymm (Nat.le_of_lt_succ hc) (Nat.le_of_not_lt hlt)
       subst this
-      rw [Heap.get_alloc_new]
+      rw [Heap.get_alloc_new_readOnly]
       cases v <;> first | rfl | cases hv
   · intro a ha c hc
     exact (o2 a ha c hc).lift hal
@@ -1252,7 +1252,7 @@ theorem PathOK.newVar {s : St} (ok : PathOK s) (name : Bytes) (f : Frame) (fs : 
     · rw [e']
       refine ⟨by show _ < (s.heap.alloc .unknown).2.cells.size; rw [Heap.size_alloc]; exact Nat.lt_succ_self _, ?_⟩
       show ((s.heap.alloc .unknown).2.get s.heap.cells.size).spec? = none
-      rw [Heap.get_alloc_new]; rfl
+      rw [Heap.get_alloc_new_readOnly]; rfl
   · exact o4 f' (by show f' ∈ s.frames; rw [hf]; exact List.mem_cons_of_mem _ e) kc hkc
 
 /-- where a member cell comes from -/
@@ -1489,7 +1489,7 @@ theorem evalPath_trace (prog : Program) (x : Option CellId) : ∀ (n : Nat) (l :
         · show _ < (s.heap.alloc .unknown).2.cells.size
           rw [Heap.size_alloc]; exact Nat.lt_succ_self _
         · show ((s.heap.alloc .unknown).2.get s.heap.cells.size).spec? = none
-          rw [Heap.get_alloc_new]; rfl
+          rw [Heap.get_alloc_new_readOnly]; rfl
   | binary l' r op =>
     cases r with
     | lit t =>
@@ -1523,7 +1523,7 @@ theorem evalPath_trace (prog : Program) (x : Option CellId) : ∀ (n : Nat) (l :
         dsimp only at hev
         rw [memberStep_eq] at hev
         have hB : ({ sA with heap := (sA.heap.alloc kv).2 } : St).heap.get sA.heap.cells.size = kv :=
-          Heap.get_alloc_new _ _
+          Heap.get_alloc_new_readOnly _ _
         rw [hB] at hev
         have okB : PathOK { sA with heap := (sA.heap.alloc kv).2 } := okA.alloc kv hkval.notCont
         have halB : HeapPreserved sA.heap (sA.heap.alloc kv).2 := HeapPreserved.alloc _ _
@@ -1550,7 +1550,7 @@ theorem evalPath_trace (prog : Program) (x : Option CellId) : ∀ (n : Nat) (l :
         · rw [if_pos hu, newCell_eq] at hev
           simp only [Res.ok.injEq] at hev
           obtain ⟨rfl, rfl⟩ := hev
-          refine freshCase _ rfl (fun pC => .fresh pC hxq hop hkv (Heap.get_alloc_new _ _) ?_)
+          refine freshCase _ rfl (fun pC => .fresh pC hxq hop hkv (Heap.get_alloc_new_readOnly _ _) ?_)
           have hu2 : ((sA.heap.alloc kv).2.alloc (.nil (some ⟨q0, keyOf kv⟩))).2.get q0 = .unknown := by
             rw [Heap.get_alloc_old _ _ _ (Nat.lt_of_lt_of_le hq0 halB.cells)]; exact hu
           exact ⟨(fun o e => by rw [hu2] at e; cases e), (fun a e => by rw [hu2] at e; cases e)⟩
@@ -1558,7 +1558,7 @@ theorem evalPath_trace (prog : Program) (x : Option CellId) : ∀ (n : Nat) (l :
           rcases memberRead_cases _ _ _ _ _ _ hkval.shape hev with ⟨hg, hnn, rfl⟩ | ⟨v, rfl, rfl, hv⟩
           · exact ⟨relB, okB, .found pB hxq hop hkv hg (okB.found hg) hnn, hfuel⟩
           · rcases hv with ⟨rfl, hmr⟩ | ⟨f, b, sp, rfl⟩ | ⟨ch, sp, rfl⟩
-            · refine freshCase _ rfl (fun pC => .fresh pC hxq hop hkv (Heap.get_alloc_new _ _) ?_)
+            · refine freshCase _ rfl (fun pC => .fresh pC hxq hop hkv (Heap.get_alloc_new_readOnly _ _) ?_)
               have hq0B : q0 < (sA.heap.alloc kv).2.cells.size := Nat.lt_of_lt_of_le hq0 halB.cells
               have hcont := okB.1 q0 hq0B
               have hal2 := HeapPreserved.alloc (sA.heap.alloc kv).2 (.nil (some ⟨q0, keyOf kv⟩))
@@ -1574,9 +1574,9 @@ theorem evalPath_trace (prog : Program) (x : Option CellId) : ∀ (n : Nat) (l :
                   exact ⟨by simpa [Val.contOK] using hcont, hmr.2 a e⟩
               exact hm0.lift hq0B hal2
             · exact freshCase _ rfl (fun pC => .other pC hxq hop hkv
-                (.inl ⟨f, b, sp, Heap.get_alloc_new _ _⟩))
+                (.inl ⟨f, b, sp, Heap.get_alloc_new_readOnly _ _⟩))
             · exact freshCase _ rfl (fun pC => .other pC hxq hop hkv
-                (.inr ⟨ch, sp, Heap.get_alloc_new _ _⟩))
+                (.inr ⟨ch, sp, Heap.get_alloc_new_readOnly _ _⟩))
     | _ => simp [Expr.isPath] at hpath
   | _ => simp [Expr.isPath] at hpath
 
@@ -1627,7 +1627,7 @@ theorem evalMember_forward (prog : Program) (m : Nat) (l : Expr) (t op : Token) 
   rw [memberStep_eq]
   have hal := HeapPreserved.alloc sA.heap kv
   have e1 : (sA.heap.alloc kv).2.get q' = sA.heap.get q' := hal.get q' hq'
-  have e2 : (sA.heap.alloc kv).2.get sA.heap.cells.size = kv := Heap.get_alloc_new _ _
+  have e2 : (sA.heap.alloc kv).2.get sA.heap.cells.size = kv := Heap.get_alloc_new_readOnly _ _
   have hne : ({ sA with heap := (sA.heap.alloc kv).2 } : St).heap.get q' ≠ .unknown := by
     show (sA.heap.alloc kv).2.get q' ≠ _
     rw [e1]; exact isCont_ne_unknown hcont
